@@ -411,6 +411,10 @@ def fixed():
     z.struct([U8, U8, U8, flat_vec(U32, "u8")], sized=False, comment="three byte prefix")
     z.struct([array(U8, 3), flat_vec(array(U8, 3), "u8")], sized=False, comment="odd sizes")
     z.struct([U16, flat_vec(U8, "u8")], sized=False, default=False, comment="not default")
+    z.struct([U32, flat_vec(array(U8, 3), "u8")], sized=False, comment="tail bytes not a multiple of the struct alignment")
+    z.struct([U64, U8, flat_vec(array(U16, 3), "u16")], sized=False, comment="tail bytes not a multiple of the struct alignment (2)")
+    z.struct([U128, flat_vec(UNIT, "u16")], sized=False, comment="zero-sized elements behind an aligned prefix")
+    z.enum([("unit", []), ("named", [U32, flat_vec(array(U8, 3), "u8")])], sized=False, comment="enum variant with odd-sized tail elements")
 
     # 5. unsized enums: tag x payload alignment, tails
     for tag in ["u8", "u16", "u32"]:
